@@ -364,6 +364,9 @@ DoneChoosingBodySource:
 	if reinstateSlash {
 		urlPath += "/"
 	}
+	// a placeholder that was not given a value stays as written: with raw braces net/url would
+	// not take urlPath as the escaped form of the path and would unescape the other values
+	urlPath = strings.NewReplacer("{", "%7B", "}", "%7D").Replace(urlPath)
 
 	req, err = http.NewRequestWithContext(context.Background(), r.method, urlPath, body)
 	if err != nil {
